@@ -30,11 +30,13 @@ const (
 	uBmDirty // bitmap of block numbers
 	uData    // per-block value slice
 	uDataEnum
-	uPtrAbs // pointer to the transaction cursor
+	uPtrAbs    // pointer to the transaction cursor
+	uWordBlk   // index of a 64-bit word of a per-block bitmap
+	uWordWhole // index of a 64-bit word of a whole-collection bitmap
 )
 
 var ukNames = map[ukind]string{uBot: "⊥", uAbs: "Abs", uRel: "Rel", uBase: "Base", uChunk: "Block#", uAny: "const",
-	uTop: "⊤", uBmWhole: "whole-bitmap", uBmBlock: "block-bitmap", uBmDirty: "dirty-bitmap", uData: "block-values", uDataEnum: "enum-table", uPtrAbs: "*cursor"}
+	uTop: "⊤", uBmWhole: "whole-bitmap", uBmBlock: "block-bitmap", uBmDirty: "dirty-bitmap", uData: "block-values", uDataEnum: "enum-table", uPtrAbs: "*cursor", uWordBlk: "word-of-block-bitmap", uWordWhole: "word-of-whole-bitmap"}
 
 func (k ukind) String() string { return ukNames[k] }
 
@@ -177,6 +179,8 @@ func resultKind(name string, i int) ukind {
 		if i == 0 {
 			return uAbs
 		}
+	case "math/bits.TrailingZeros64", "math/bits.LeadingZeros64", "math/bits.Len64":
+		return uAny // a bit position within a word: a small delta like a constant
 	case "(github.com/kelindar/bitmap.Bitmap).Max", "(github.com/kelindar/bitmap.Bitmap).Min", "(github.com/kelindar/bitmap.Bitmap).MinZero":
 		return uBot // depends on receiver; handled at the call
 	}
@@ -487,6 +491,23 @@ func (u *Units) analyse(fn *ssa.Function, check bool) {
 					}
 				}
 			case *ssa.IndexAddr:
+				// a bitmap walked word by word (`for i, word := range fill`): the counter is a word
+				// index of that bitmap's granularity, word<<6 is the row offset of its first bit
+				if bk := u.val(x.X); bk == uBmBlock || bk == uBmWhole {
+					if _, isRow := rowOffsetOfWord(x.Index); !isRow {
+						iv := strip(x.Index)
+						if _, isC := iv.(*ssa.Const); !isC {
+							wk := uWordBlk
+							if bk == uBmWhole {
+								wk = uWordWhole
+							}
+							if u.acc[iv] != wk {
+								u.acc[iv] = wk
+								u.changed = true
+							}
+						}
+					}
+				}
 				if check {
 					u.checkIndex(fn, x)
 				}
@@ -565,6 +586,15 @@ func (u *Units) binop(x *ssa.BinOp) ukind {
 		if c, ok := constInt(x.Y); ok && c == uShift && l == uChunk {
 			return uBase
 		}
+		// word << 6 = row offset of the word's first bit, in the bitmap's granularity
+		if c, ok := constInt(x.Y); ok && c == 6 {
+			switch l {
+			case uWordBlk:
+				return uRel
+			case uWordWhole:
+				return uAbs
+			}
+		}
 		return uTop
 	case token.SHR:
 		if c, ok := constInt(x.Y); ok && c == uShift && l == uAbs {
@@ -574,6 +604,14 @@ func (u *Units) binop(x *ssa.BinOp) ukind {
 	case token.MUL:
 		if c, ok := constInt(x.Y); ok && c == int64(1)<<uShift && l == uChunk {
 			return uBase
+		}
+		if c, ok := constInt(x.Y); ok && c == 64 {
+			switch l {
+			case uWordBlk:
+				return uRel
+			case uWordWhole:
+				return uAbs
+			}
 		}
 		return uTop
 	case token.AND:
